@@ -321,13 +321,23 @@ theorem tc_sound : ∀ (n : Nat) (e : Expr F) (ex : Option Ty) (t : Ty),
           split at h
           · rename_i t0 hret
             split at h
-            · rename_i hc
-              simp only [Bool.and_eq_true, decide_eq_true_eq] at hc
-              obtain ⟨rfl, hx⟩ := accept_some h
-              refine ⟨.call name args sig _ hphi hret hc.1 ?_, hx⟩
-              intro i a pt ha hpt
-              exact (ih a (some pt) pt (beq_opt (zip_all args sig.params _ hc.2 i a pt ha hpt))).1
-            · cases h
+            · rename_i tv hv
+              split at h
+              · rename_i hc
+                obtain ⟨rfl, hx⟩ := accept_some h
+                refine ⟨.callV name args sig tv _ hphi hv hret ?_, hx⟩
+                intro a ha
+                exact (ih a (some tv) tv (beq_opt (List.all_eq_true.mp hc a ha))).1
+              · cases h
+            · rename_i hv
+              split at h
+              · rename_i hc
+                simp only [Bool.and_eq_true, decide_eq_true_eq] at hc
+                obtain ⟨rfl, hx⟩ := accept_some h
+                refine ⟨.call name args sig _ hphi hv hret hc.1 ?_, hx⟩
+                intro i a pt ha hpt
+                exact (ih a (some pt) pt (beq_opt (zip_all args sig.params _ hc.2 i a pt ha hpt))).1
+              · cases h
           · cases h
         · cases h
 
@@ -553,13 +563,23 @@ theorem tcSB_sound : ∀ (n : Nat),
               · split at h
                 · rename_i sig hphi
                   split at h
-                  · rename_i hc
-                    simp only [Bool.and_eq_true, decide_eq_true_eq] at hc
-                    simp at h; subst h
-                    refine .callFn Gs name args sig hphi hc.1 ?_
-                    intro i a pt ha hpt
-                    exact (tc_sound Φ _ n a (some pt) pt (beq_opt (zip_all args sig.params _ hc.2 i a pt ha hpt))).1
-                  · cases h
+                  · rename_i tv hv
+                    split at h
+                    · rename_i hc
+                      simp at h; subst h
+                      refine .callFnV Gs name args sig tv hphi hv ?_
+                      intro a ha
+                      exact (tc_sound Φ _ n a (some tv) tv (beq_opt (List.all_eq_true.mp hc a ha))).1
+                    · cases h
+                  · rename_i hv
+                    split at h
+                    · rename_i hc
+                      simp only [Bool.and_eq_true, decide_eq_true_eq] at hc
+                      simp at h; subst h
+                      refine .callFn Gs name args sig hphi hv hc.1 ?_
+                      intro i a pt ha hpt
+                      exact (tc_sound Φ _ n a (some pt) pt (beq_opt (zip_all args sig.params _ hc.2 i a pt ha hpt))).1
+                    · cases h
                 · cases h
         | _ => simp at h
     · intro Gs b h
@@ -588,7 +608,7 @@ theorem checkProg_sound (sigs : List (Str × FSig)) (globals : List (Str × Ty))
   have hall' := List.all_eq_true.mp hall
   have entry : ∀ name sig, fenvOf sigs name = some sig → (name, sig) ∈ sigs :=
     fun name sig hs => lookup_mem name sigs sig hs
-  refine ⟨⟨?_, ?_⟩, (tcSB_sound (fenvOf sigs) (envOf globals) none fuel).2 _ _ hst⟩
+  refine ⟨⟨?_, ?_, ?_⟩, (tcSB_sound (fenvOf sigs) (envOf globals) none fuel).2 _ _ hst⟩
   · intro name sig hs
     have := hall' _ (entry name sig hs)
     simp only [Bool.and_eq_true, Bool.not_eq_true'] at this
@@ -596,15 +616,30 @@ theorem checkProg_sound (sigs : List (Str × FSig)) (globals : List (Str × Ty))
     cases hf : lookupFunc prog.funcs name with
     | none => rw [hf] at this; simp at this
     | some fd => exact ⟨fd, rfl⟩
-  · intro name sig fd hs hfd
+  · intro name sig fd hs hfd hvn
     have := hall' _ (entry name sig hs)
-    simp only [Bool.and_eq_true, Bool.not_eq_true', hfd, Bool.or_eq_true, decide_eq_true_eq] at this
+    simp only [Bool.and_eq_true, Bool.not_eq_true', hfd, hvn, Bool.or_eq_true, decide_eq_true_eq] at this
     obtain ⟨_, ⟨⟨hv, hl⟩, hb⟩, hr⟩ := this
     refine ⟨by simpa using hv, hl, (tcSB_sound (fenvOf sigs) (envOf globals) sig.ret fuel).2 _ _ hb, ?_⟩
     intro t ht
     rcases hr with h1 | h1
     · rw [ht] at h1; simp at h1
     · exact h1
+  · intro name sig fd tv hs hfd hvn
+    have := hall' _ (entry name sig hs)
+    simp only [Bool.and_eq_true, Bool.not_eq_true', hfd, hvn, Bool.or_eq_true] at this
+    obtain ⟨_, ⟨⟨hvar, hpar⟩, hreg⟩, hr⟩ := this
+    refine ⟨?_, by simpa using hpar, hreg, ?_⟩
+    · cases hfv : fd.variadic with
+      | none => rw [hfv] at hvar; simp at hvar
+      | some vn =>
+        rw [hfv] at hvar
+        simp only [Bool.and_eq_true, Bool.not_eq_true', decide_eq_false_iff_not] at hvar
+        exact ⟨vn, rfl, hvar.1, (tcSB_sound (fenvOf sigs) (envOf globals) sig.ret fuel).2 _ _ hvar.2⟩
+    · intro t ht
+      rcases hr with h1 | h1
+      · rw [ht] at h1; simp at h1
+      · exact h1
 
 /-- the theorem the harness relies on: a program the checker accepts never goes wrong -/
 theorem checked_program_never_goes_wrong (ops : NumOps F) (ext : Ext F) (hx : ExtOk ext)
